@@ -125,6 +125,8 @@ let () =
   let last_body : (int * int * int, int) Hashtbl.t = Hashtbl.create 64 in
   let nontrivial = ref false in
   let inval_seen = ref false in
+  let stored_at : (int * int * int, int) Hashtbl.t = Hashtbl.create 64 in
+  let used_at : (int * int * int, int) Hashtbl.t = Hashtbl.create 64 in
   let prev_inst : (int * int, winst) Hashtbl.t = Hashtbl.create 64 in       (* last snapshot of every instance *)
   let exp_stats : (int, int * int) Hashtbl.t = Hashtbl.create 64 in          (* f -> hits, misses expected from exec flags *)
   let has p = List.mem p !preds in
@@ -196,7 +198,7 @@ let () =
          if exec > 1 then fail "exec_twice" (Printf.sprintf "f%d x=%d executed %d times in one call" f x exec);
          (* C01 oracle for pure bodies is done by the caller through --preds pure: returned = body outcome *)
          if List.mem "pure" !preds && field "panic" = None && enc_v <> int_of_n (enc body) then
-           fail "c01_value" (Printf.sprintf "f%d x=%d returned %d but the function's value is %d" f x enc_v (int_of_n (enc body)));
+           fail "pure" (Printf.sprintf "f%d x=%d returned %d but the function's value is %d" f x enc_v (int_of_n (enc body)));
          let this_inst = List.find_opt (fun wi -> wi.wf = f && wi.wtid = itid) instances in
          let stored_after = (match this_inst with Some wi -> List.assoc_opt x wi.wstore | None -> None) in
          let okb = (ok = "ok") and cifb = (cif = "1") and invb = (inv = "1") in
@@ -227,6 +229,54 @@ let () =
                 | Some (v, _, _) when v = int_of_n (enc body) -> ()
                 | _ -> fail "inv" (Printf.sprintf "f%d x=%d: fresh result did not replace the stale entry" f x))
            end;
+           (* engine-level properties observed through the macro-generated code *)
+           let prev = Hashtbl.find_opt prev_inst (f, itid) in
+           let prev_store = (match prev with Some p -> p.wstore | None -> []) in
+           let post_store = (match this_inst with Some wi -> wi.wstore | None -> []) in
+           let gone = List.filter (fun (k, _) -> k <> x && not (List.mem_assoc k post_store)) prev_store in
+           let cfgc = fn.w.w_cfg in
+           if has "limit" then begin
+             (match cfgc.limit with
+              | Some l ->
+                let l = int_of_n l in
+                if List.length post_store > l then
+                  fail "limit" (Printf.sprintf "f%d holds %d entries, limit is %d" f (List.length post_store) l);
+                if cfgc.maxmem = None && cfgc.ttl = None then begin
+                  let overflow = exec > 0 && List.mem_assoc x post_store && not (List.mem_assoc x prev_store) && List.length prev_store >= l in
+                  if overflow && List.length gone <> 1 then
+                    fail "limit" (Printf.sprintf "f%d x=%d: overflowing store removed %d entries" f x (List.length gone));
+                  if (not overflow) && List.length gone > 0 && List.mem_assoc x post_store then
+                    fail "limit" (Printf.sprintf "f%d x=%d: a store that did not overflow removed %d entries" f x (List.length gone))
+                end
+              | None ->
+                if cfgc.maxmem = None && cfgc.ttl = None && gone <> [] then
+                  fail "limit" (Printf.sprintf "f%d x=%d: an entry disappeared from a cache without limits" f x))
+           end;
+           if has "ttl" then begin
+             (match cfgc.ttl, List.assoc_opt x prev_store with
+              | Some t, Some (_, _, born) ->
+                let t = int_of_n t and nowi = int_of_n now in
+                let age_s = if fn.fl = "a" then nowi / 1000 - born / 1000 else (nowi - born) / 1000 in
+                if age_s >= t && exec = 0 then fail "ttl" (Printf.sprintf "f%d x=%d: entry of age %ds served with ttl %d" f x age_s t);
+                if age_s < t && exec > 0 && not fn.w.w_inval_on then
+                  fail "ttl" (Printf.sprintf "f%d x=%d: entry of age %ds recomputed with ttl %d" f x age_s t)
+              | _ -> ())
+           end;
+           if has "order" && (cfgc.pol = FIFO || cfgc.pol = LRU) && gone <> [] && exec > 0 then begin
+             (* stamps from the implementation's own history: last store (FIFO) / last use (LRU) *)
+             let stamp k = (try Hashtbl.find (if cfgc.pol = LRU then used_at else stored_at) (f, itid, k) with Not_found -> 0) in
+             let surv = List.filter (fun (k, _) -> k <> x) post_store in
+             (* expired entries may be dropped first by a lookup; only compare with unexpired survivors *)
+             List.iter (fun (r, _) ->
+                 List.iter (fun (sv, _) ->
+                     if stamp r > stamp sv then
+                       fail "order" (Printf.sprintf "f%d: %s evicted key %d although key %d was %s longer ago" f
+                                       (if cfgc.pol = LRU then "LRU" else "FIFO") r sv (if cfgc.pol = LRU then "used" else "stored"))) surv) gone
+           end;
+           (* update the history stamps *)
+           (if exec = 0 then Hashtbl.replace used_at (f, itid, x) !evidx
+            else if List.mem_assoc x post_store then begin
+              Hashtbl.replace used_at (f, itid, x) !evidx; Hashtbl.replace stored_at (f, itid, x) !evidx end);
            if has "iso" then check_frame "iso" [(f, itid)] instances;
            if has "stats" && fn.fl <> "t" && not fn.w.w_inval_on then begin
              let (h, m) = (try Hashtbl.find exp_stats f with Not_found -> (0, 0)) in
@@ -369,7 +419,7 @@ let () =
          let (w, ix) = build_world fns in
          world := w; index := ix; verdict := None; evidx := 0; skip := false; fails := [];
          Hashtbl.reset seen_calls; Hashtbl.reset last_body; nontrivial := false;
-         Hashtbl.reset prev_inst; Hashtbl.reset exp_stats; inval_seen := false;
+         Hashtbl.reset prev_inst; Hashtbl.reset exp_stats; inval_seen := false; Hashtbl.reset stored_at; Hashtbl.reset used_at;
          ev := []; rline := []; ws := []
        | "E" :: rest -> ev := rest
        | "R" :: rest -> rline := (match rest with "call" :: r -> r | r -> r)
